@@ -28,7 +28,7 @@ CLAIMED = {
         technique="symbolic execution (CrossHair+z3) inductive-step lemma + structural checking of emitted protos over a generated corpus"),
     "C03": dict(
         category="translation_validation", design_ref="§5 C03", engine="S",
-        text="For each generated model (typed random DAGs with constants, initializer-inputs, shape chains, casts, If/Loop bodies with captured values and own initializers, pass-through branches, sequences, Dropout, zero-size tensors, local functions with attribute refs; a third of them with a random valid topological node order; plus the rule hosts incl. control-flow, Shape<start,end>, ConvInteger/ConvTranspose/QLinearConv families) and each transformation/option tuple (optimize on proto and IR, fold_constants, default rewrite, remove_unused_nodes): symonnx interprets M and f(M) on the same symbolic inputs and z3 decides equality of all outputs for ALL input values (exact; floats additionally under a forward-error bound when the exact query is sat).",
+        text="For each generated model (typed random DAGs with constants, initializer-inputs, shape chains, casts, If/Loop bodies with captured values and own initializers, pass-through branches, sequences, Dropout, zero-size tensors, local functions with attribute refs; a third of them with a random valid topological node order; plus the rule hosts incl. control-flow, Shape<start,end>, ConvInteger/ConvTranspose/QLinearConv, sequence ops at opsets 13/17/18, model-local functions with reference attributes at depth 0-2, and overridable defaults of shape-like / control operands - where the symbolic semantics cannot follow a data-dependent target, a few concrete override candidates are enumerated) and each transformation/option tuple (optimize on proto and IR, fold_constants, default rewrite, non-default size limits, remove_unused_nodes): symonnx interprets M and f(M) on the same symbolic inputs and z3 decides equality of all outputs for ALL input values (exact; floats additionally under a forward-error bound when the exact query is sat).",
         note=S_NOTE, technique="translation validation: symbolic ONNX semantics of M and optimize(M), z3 equivalence for all inputs, onnxruntime replay"),
     "C04": dict(
         category="translation_validation", design_ref="§5 C04", engine="S",
@@ -51,12 +51,12 @@ CLAIMED = {
         technique="symbolic execution (CrossHair+z3) of the real matcher against declarative instance specs, vacuity twins"),
     "C07": dict(
         category="translation_validation", design_ref="§5 C07", engine="S",
-        text="Seventeen generated rules (re-emission via a different op, operand swap, double transpose/negation, x*1 - also with a replacement that returns the pattern input itself -, two-output and two-root patterns with consumers between the matched nodes, replacement with a new initializer, as_function, remove_nodes=False) whose p==r is itself proved on the k=1 host; hosts with k<=3 separated/adjacent instances, matched outputs that are graph outputs, intermediates with extra consumers, instances inside If bodies (depth<=2), Loop bodies and model-local functions, initializer name clashes. symonnx + z3 decide [[M]] == [[rewrite(M,[rule])]] for all inputs; validity, signature, unmatched-node multiset and minimum application count are side verdicts.",
+        text="Seventeen generated rules (re-emission via a different op, operand swap, double transpose/negation, x*1 - also with a replacement that returns the pattern input itself -, two-output and two-root patterns with consumers between the matched nodes, replacement with a new initializer, as_function, remove_nodes=False, a rule with per-graph state kept through the visitor hooks) whose p==r is itself proved on the k=1 host; hosts with k<=3 separated/adjacent instances, matched outputs that are graph outputs, intermediates with extra consumers, instances inside If bodies (depth<=2), Loop bodies, model-local functions and If branches of functions, one value bound to several pattern inputs, initializer name clashes; random hosts (6 quick / 150 thorough per rule). symonnx + z3 decide [[M]] == [[rewrite(M,[rule])]] for all inputs; validity, signature, unmatched-node multiset and minimum application count are side verdicts.",
         note=S_NOTE + " Rules must be terminating (a replacement containing its own pattern makes the rewriter loop: property of the rule). Metadata merging unchecked.",
         technique="translation validation of generated rewrite rules on generated hosts: symbolic ONNX semantics, z3 equivalence, structural side verdicts"),
     "C10": dict(
         category="translation_validation", design_ref="§5 C10", engine="S",
-        text="Matrix source/target 18..25 x entry {ir.Model, ModelProto} x fallback {True, False} over models with the three adapter ops (GroupNormalization exact, DFT/GridSample uninterpreted over canonical attributes), unchanged ops, If-subgraphs, model-local functions, initializer-inputs; plus legacy sources 10/11/13 with attribute-form Pad/Squeeze/Unsqueeze/ReduceSum/Split/ReduceMean converted to 18/21 (outside the property's quantifier, inside its statement: a refusal must leave the old form under the old declaration). symonnx interprets each side under the opset it DECLARES (schema arity/attribute validation), so a half-converted model is a semantic counterexample; z3 decides equality for all inputs; declared version, function opsets, signature, initializers are side verdicts.",
+        text="Matrix source/target 18..25 x entry {ir.Model, ModelProto} x fallback {True, False} over models with the three adapter ops (GroupNormalization exact, DFT/GridSample uninterpreted over canonical attributes), unchanged ops, If-subgraphs, model-local functions, initializer-inputs; plus legacy sources 10/11/13 with attribute-form Pad/Squeeze/Unsqueeze/ReduceSum/Split/ReduceMean converted to 18/21 (outside the property's quantifier, inside its statement: a refusal must leave the old form under the old declaration). symonnx interprets each side under the opset it DECLARES (schema arity/attribute validation), so a half-converted model is a semantic counterexample; z3 decides equality for all inputs; declared version, function opsets, signature, initializers and the (num_groups, epsilon, stash_type) of every GroupNormalization are side verdicts.",
         note=S_NOTE, technique="translation validation keyed by declared opset: symbolic ONNX semantics, z3 equivalence"),
     "C12": dict(
         category="other", design_ref="§5 C12", engine="Z+X",
@@ -65,16 +65,16 @@ CLAIMED = {
         technique="z3 floating-point/bit-vector queries over pipeline models extracted from the real front ends + CrossHair differential lemma + registry enumeration"),
     "C13": dict(
         category="translation_validation", design_ref="§5 C13", engine="S+X",
-        text="For typed models from the script corpus (incl. adversarially renamed values: dots, digits, keywords, names colliding after clean-up) operator tables (every operator the exporter may render in infix form, with attributes; infix-only graphs), constants in both operand positions, FunctionProtos with attribute parameters, models with model-local functions (the FunctionProtos of the generated functions are attached by hand; that the default to_model_proto() does not carry them is a recorded finding) and tensor-typed generated models x export options: the generated source must compile, decorate, keep the signature, and symonnx + z3 decide [[roundtrip]] == [[original]] for ALL inputs (initializer-inputs symbolic). (X) CrossHair lemmas on the naming helpers (identifier-ness, idempotence, injectivity and stability of the short mapper and of the unique-name mapper over 3/4 requests from tables with triple collisions and generated-suffix names, attribute-conflict renamer).",
+        text="For typed models from the script corpus (incl. adversarially renamed values: dots, digits, keywords, names colliding after clean-up) operator tables (every operator the exporter may render in infix form, with attributes; infix-only graphs), constants in both operand positions, FunctionProtos with attribute parameters, models with model-local functions (the FunctionProtos of the generated functions are attached by hand; that the default to_model_proto() does not carry them is a recorded finding) and tensor-typed generated models x export options: the generated source must compile, decorate, keep the signature, keep every constant tensor bit for bit where it is not inlined (decides NaN / infinities / signed zeros / strings, which the real-valued semantics cannot), and symonnx + z3 decide [[roundtrip]] == [[original]] for ALL inputs (initializer-inputs symbolic). (X) CrossHair lemmas on the naming helpers (identifier-ness, idempotence, injectivity and stability of the short mapper and of the unique-name mapper over 3/4 requests from tables with triple collisions and generated-suffix names, attribute-conflict renamer).",
         note=S_NOTE + " skip_initializers: the generated make_model() is called with the original values of the skipped initializers.", technique="translation validation of the proto2python round trip: symbolic ONNX semantics, z3 equivalence; CrossHair lemmas on helpers"),
     "C14": dict(
         category="other", design_ref="§5 C14", engine="X",
-        text="(a) hash randomisation as a schedule: converter/analysis re-executed with every set iteration order chosen by CrossHair; FunctionProto bytes must not depend on it; confirmed with real PYTHONHASHSEED subprocesses. (b) histories as arbitrary pre-state: per-match fields of rule singletons (AST-discovered each run) havocked with symbolic values before rewrite(); bytes must equal the fresh-object run. (d) histories of whole transformations: a symbolic history (1 model quick, 2 thorough) and a symbolic target from a 36-model table (12 operator kinds, one for every version-ranged evaluator of the folder's registry, x opsets 11/13/18; script sources; models that need the 19->20 / 20->21 adapters) go through optimize / convert_version / proto2python / script decoration in one process - each history in a forked child of a worker that has only imported the library, so that paths do not see each other's leftovers and a counterexample replays from its own history; the target bytes must equal the fresh-process baseline (subprocess per pair); indices concretised by comparison forks, the transformation runs concretely. (c) concrete probe: repeated to_model_proto, post-decoration rebinding and in-place mutation of globals.",
+        text="(a) hash randomisation as a schedule: converter/analysis re-executed with every set iteration order chosen by CrossHair; FunctionProto bytes must not depend on it; confirmed with real PYTHONHASHSEED subprocesses. (b) histories as arbitrary pre-state: per-match fields of rule singletons (AST-discovered each run) havocked with symbolic values before rewrite(); bytes must equal the fresh-object run. (d) histories of whole transformations: a symbolic history (1 model quick, 2 thorough) and a symbolic target from a 36-model table (12 operator kinds, one for every version-ranged evaluator of the folder's registry, x opsets 11/13/18; script sources; models that need the 19->20 / 20->21 adapters) go through optimize / convert_version / proto2python / script decoration / one re-used FoldConstantsPass object (the table has a model that folds, then fails) in one process - each history in a forked child of a worker that has only imported the library, so that paths do not see each other's leftovers and a counterexample replays from its own history; the target bytes must equal the fresh-process baseline (subprocess per pair); indices concretised by comparison forks, the transformation runs concretely. (c) concrete probe: repeated to_model_proto, post-decoration rebinding and in-place mutation of globals.",
         note="Trusted: CrossHair; order cut applied in memory by vp/loader.py; <=4 schedule choices per translation; 4 rule targets. Narrow: file system / time / other processes not modelled.",
         technique="symbolic execution (CrossHair+z3) with solver-chosen set-iteration schedules, havocked singleton state and solver-partitioned transformation histories vs fresh-process baselines; PYTHONHASHSEED replay"),
     "C18": dict(
         category="translation_validation", design_ref="§5 C18", engine="S+X",
-        text="Seeded random traces through the real GraphBuilder/OpBuilder (literals in every position, inputs given by keyword, _outputs, module scopes, If subgraphs capturing outer values) are shadowed by a symbolic replay that applies symonnx's rule per call with the property's own promotion rule; z3 decides [[built graph]] == replay for ALL inputs, and [[call]] == [[call_inline]] for script functions with attribute arguments, literal arguments and calls of other script functions (every callee must be defined in the model). Naming: (X) nn construction histories of <=4 (quick) / 5 (thorough) steps over 10 step kinds (create list / list with children / sequential, nest, attach to a root that is named at construction / at the end / never and may own a parameter called like the leaves', children called directly or inside an If branch built by a sub-builder, append/extend after naming, slice) are solver variables concretised by comparison forks; every Parameter must appear once as the initializer root.name + state_dict key and be the Parameter object, names unique, checker passes. Random module trees (depth<=4), value/node naming of traces and six traces with operators of non-default domains (validity only) are enumeration, labelled.",
+        text="Seeded random traces through the real GraphBuilder/OpBuilder (literals in every position, inputs given by keyword, _outputs, module scopes, If subgraphs capturing outer values) are shadowed by a symbolic replay that applies symonnx's rule per call with the property's own promotion rule; z3 decides [[built graph]] == replay for ALL inputs, and [[call]] == [[call_inline]] for script functions with attribute arguments, literal arguments and calls of other script functions (every callee must be defined in the model). Naming: (X) nn construction histories of <=4 (quick) / 5 (thorough) steps over 10 step kinds (create list / list with children / sequential, nest, attach to a root that is named at construction / at the end / never and may own a parameter called like the leaves', children called directly or inside an If branch built by a sub-builder, append/extend after naming, slice) are solver variables concretised by comparison forks; every Parameter must appear once as the initializer root.name + state_dict key and be the Parameter object, names unique, checker passes. Random module trees (depth<=4), value/node naming of traces and six traces with operators of non-default domains (validity only) and If nested 2-3 levels with equal graph names (validity + concrete values) are enumeration, labelled.",
         note=S_NOTE, technique="translation validation of traced graphs against a symbolic shadow replay; z3 equivalence; CrossHair-partitioned construction histories for module naming; structural enumeration for names"),
     "C20": dict(
         category="other", design_ref="§5 C20", engine="X",
